@@ -63,7 +63,16 @@ func verif_harness_C09_json_truncated() {
 // does not.
 //
 //verif:harness unwind=64 replay=none
-func verif_harness_C09_json_large_line() {
+func verif_harness_C09_json_large_line() { verifJSONLargeLine() }
+
+// The same harness registered for C08: a JSON record larger than any read
+// buffer reaches the record decoder unaltered (nothing lost, nothing
+// overwritten), and so does the record after it.
+//
+//verif:harness unwind=64 replay=none
+func verif_harness_C08_json_large_record_unaltered() { verifJSONLargeLine() }
+
+func verifJSONLargeLine() {
 	if !verif_is_symbolic_run() {
 		return
 	}
